@@ -163,7 +163,10 @@ def scenarios(ctx):
             k = rnd.randint(1, 3)
             if kind == "u":
                 start = rnd.choice([16, 12, 8])
-                return [max(2, start - 3 * j) for j in range(k)] if prior != "hier_scale" else [max(1, 6 - 2 * j) for j in range(k)]
+                out_ = [max(2, start - 3 * j) for j in range(k)] if prior != "hier_scale" else [max(1, 6 - 2 * j) for j in range(k)]
+                if i % 8 == 2 and prior != "hier_scale":
+                    out_[-1] = 0          # exact matching: the threshold 0 is a threshold like any other
+                return out_
             return [rnd.choice([[1, 2], [1, 4], [3, 4], [1, 1]]) for _ in range(k)]
         kinds = [rnd.choice(["u", "q"])]
         if i % 2 == 1:
